@@ -5,5 +5,6 @@ CONSTANTS
   MaxStar = 2
   MaxTD = 2
   GenSigs = FALSE
+  WithUnknown <- UnknownOn
 INVARIANT EmitSigs
 INVARIANT EmitCall
